@@ -411,7 +411,7 @@ func checkC02(w *World, r *Report) {
 	r.Counts["reads of written shared locations"] = nR
 
 	checkR02_2(w, r)
-	checkR02_3(w, r, la, fns)
+	checkLockLeaks(w, r, la, "R02.3")
 	// the pool hand-off rule
 	checkR01_4(w, r)
 }
@@ -507,42 +507,3 @@ func derivesFromEngineField(v ssa.Value, seen map[ssa.Value]bool, depth int) str
 	return ""
 }
 
-// R02.3: a non-deferred Lock reaches an Unlock of the same lock on every path to every return.
-func checkR02_3(w *World, r *Report, la *lockAnalysis, fns []*ssa.Function) {
-	n := 0
-	for _, fn := range fns {
-		hasLock := false
-		instrsOf(fn, func(in ssa.Instruction) {
-			if _, acq, _, ok := la.lockOp(in); ok && acq {
-				hasLock = true
-			}
-		})
-		if !hasLock {
-			continue
-		}
-		// deferred unlocks of this function
-		deferred := map[lockKey]bool{}
-		instrsOf(fn, func(in ssa.Instruction) {
-			if k, acq, d, ok := la.lockOp(in); ok && !acq && d {
-				deferred[k] = true
-			}
-		})
-		instrsOf(fn, func(in ssa.Instruction) {
-			ret, ok := in.(*ssa.Return)
-			if !ok {
-				return
-			}
-			held := la.at(ret)
-			for k := range held {
-				if la.entry[fn][k] || deferred[k] {
-					continue
-				}
-				n++
-				r.bad("R02.3", ssaName(fn), "lock "+string(k)+" released on every path", w.posOf(ret.Pos()), "the function can return with the lock still held: the next caller blocks forever")
-			}
-		})
-		n++
-		r.ok("R02.3", ssaName(fn), "locks released on every path", w.posOf(fn.Pos()), "no return is reachable with a lock acquired here still held (or its Unlock is deferred)", true)
-	}
-	r.floor("functions that take a lock", n, 3)
-}
